@@ -160,6 +160,45 @@ BAD_PARAMS = [
 ]
 
 
+ODD_VALUES = ["[]", "{}", '""', "null", "~", "0", "-1", "true", "[[]]", '[""]', '{"": ""}', "1.5", '"' + "x" * 5000 + '"', '" "', '"\\n"', "[1, [2, [3]]]",
+              '"{{"', '"{{ }}"', '"{% %}"', "!!binary aGk=", "[null]", '"é"', "0x10", "1e400", ".inf", '"-"', '"="']
+TASK_KEYWORDS = ["when", "changed_when", "loop", "register", "vars", "ignore_errors", "name", "check_mode", "become", "become_user"]
+MODULE_PARAMS = {
+    "copy": ["content", "src", "dest", "mode"], "file": ["path", "state", "mode"], "template": ["src", "dest", "mode"],
+    "find": ["paths", "excludes", "file_type", "follow", "hidden", "patterns", "recurse", "size"],
+    "command": ["cmd", "argv", "chdir", "transfer_pid"], "debug": ["msg", "var"], "assert": ["that"],
+    "pacman": ["executable", "extra_args", "force", "name", "state", "update_cache", "upgrade"],
+}
+MODULE_BASE = {
+    "copy": {"content": '"x"', "dest": '"ROOT/out/f"'}, "file": {"path": '"ROOT/out/f"'}, "template": {"src": '"ROOT/s.rh"', "dest": '"ROOT/out/t"'},
+    "find": {"paths": '"ROOT"'}, "command": {"cmd": '"true"'}, "debug": {"msg": '"x"'}, "assert": {"that": '["true"]'},
+    "pacman": {"executable": '"/bin/true"', "name": '"x"'},
+}
+SPECIAL_SCRIPTS = ["", "\n", "#!/usr/bin/env rash\n", "# only a comment\n# Usage: prog\n", "#!/usr/bin/env rash\r\n#\r\n# Usage: prog [<x>]\r\n#\r\n- debug:\r\n    msg: x\r\n",
+                   "[]\n", "---\n", "--- []\n...\n", "- debug:\n    msg: x\n" * 2 + "\n\n\n", "\ufeff- debug:\n    msg: bom\n", "#\n#\n#\n", "#!\n# Usage:\n#\n- debug:\n    msg: x\n",
+                   "# Usage: prog\n# Options:\n#\n- debug:\n    msg: x\n", "#!/usr/bin/env rash\n#\n# Usage: prog [options]\n#\n# Options:\n#   -x\n#\n- debug:\n    msg: x\n",
+                   "#!/usr/bin/env rash\n#\n# Usage: prog [options] [options]\n#\n# Options:\n#   -x  x\n#\n- debug:\n    msg: x\n"]
+
+
+def boundary_scripts():
+    out = []
+    for k in TASK_KEYWORDS:
+        for v in ODD_VALUES:
+            out.append("#!/usr/bin/env rash\n- debug:\n    msg: x\n  %s: %s\n- debug:\n    msg: end\n" % (k, v))
+    for m, params in MODULE_PARAMS.items():
+        for p in params:
+            for v in ODD_VALUES:
+                kv = dict(MODULE_BASE[m])
+                kv[p] = v
+                body = "".join("    %s: %s\n" % (a, b) for a, b in kv.items())
+                out.append("#!/usr/bin/env rash\n- %s:\n%s  ignore_errors: true\n- debug:\n    msg: end\n" % (m, body))
+    for v in ODD_VALUES:
+        out.append("#!/usr/bin/env rash\n- set_vars: %s\n" % v)
+        out.append("#!/usr/bin/env rash\n- include: %s\n" % v)
+        out.append("#!/usr/bin/env rash\n- debug: %s\n" % v)
+    return out
+
+
 def c13(run, replay=None):
     rng = run.rng
     viol = 0
@@ -171,6 +210,14 @@ def c13(run, replay=None):
         items.append(("mutated-script", dict(text=mutate(rng, rng.choice(corpus)), argv=rng.choice([[], ["go", "v"], ["--", "-f", "go", "v", "w"], ["--", "--nosuch"]]))))
     for bp in BAD_PARAMS:
         items.append(("bad-parameter", dict(text="#!/usr/bin/env rash\n" + bp + "- debug:\n    msg: end\n", argv=[])))
+    bs = boundary_scripts()
+    if run.tier == "quick":
+        bs = rng.sample(bs, 900)
+    for b in bs:
+        items.append(("boundary-value", dict(text=b, argv=[])))
+    for sp in SPECIAL_SCRIPTS:
+        items.append(("special-script", dict(text=sp, argv=[])))
+        items.append(("special-script", dict(text=sp, argv=["--", "x"])))
     for env in [{"VP_BAD": b"\xff\xfe".decode("utf-8", "surrogateescape")}, {"VP_EMPTY": ""}, {"VP_LONG": "x" * 100000}, {"RASH_LOG_LEVEL": "\xff".encode("latin1").decode("utf-8", "surrogateescape")}]:
         items.append(("environment", dict(text="#!/usr/bin/env rash\n- debug:\n    msg: \"{{ env | length }}\"\n", argv=[], env=env)))
     for argv in [["--", "-"], ["--", "--"], ["--", "=", "-=", "--="], ["--", ""], ["--", "é" * 5000], ["--", "-" * 3000], ["--"] + ["w"] * 300]:
